@@ -68,8 +68,8 @@ structure Stk where
   r : List Nat := []
   deriving DecidableEq, Repr, Inhabited
 
-/-- a coinductive assumption: the two ids and (proposed, `Variant.asmCarriesStacks`) the stacks of
-enclosing types it was made under — in the code as it is the stacks are not part of the key (`{}`) -/
+/-- a coinductive assumption: the two ids and the stacks of enclosing types it was made under (fix
+dc4f190; before it the stacks were not part of the key: `{}` with `Variant.asmKeyedByIdsOnly`) -/
 abbrev AKey := Nat × Nat × Stk
 
 abbrev Asm := List AKey
@@ -142,10 +142,10 @@ structure Variant where
   back-reference stood; its target was then "already on the stack", not pushed again, and the `Cycle`s
   inside it were counted from the entries between the reference and the target (R6) -/
   cycleKeepsInnerStack : Bool := false
-  /-- PROPOSED, not in the code (notes/C09-fixes/07; the only flag that is not a historical rule): an
-  assumption carries the two stacks it was made under and only answers a question asked below the
-  same (R7). With the flag off the key is the pair of ids alone. -/
-  asmCarriesStacks : Bool := false
+  /-- before dc4f190: a coinductive assumption was keyed by the two ids alone, although an id with
+  back-references means another type below other enclosing types; for a function type shared by two
+  unions the assumption made for one direction answered the converse question of the parameter (R7) -/
+  asmKeyedByIdsOnly : Bool := false
   deriving DecidableEq, Repr, Inhabited
 
 
@@ -162,7 +162,7 @@ def sameContext (vr : Variant) (mode : Mode) (st : Stk) : Bool :=
 
 /-- the key under which the pair `(a, b)` is assumed and looked up at the stacks `st` -/
 def akey (vr : Variant) (st : Stk) (a b : Nat) : AKey :=
-  (a, b, if vr.asmCarriesStacks then st else {})
+  (a, b, if vr.asmKeyedByIdsOnly then {} else st)
 
 @[simp] theorem akey_fst (vr : Variant) (st : Stk) (a b : Nat) : (akey vr st a b).1 = a := rfl
 @[simp] theorem akey_snd (vr : Variant) (st : Stk) (a b : Nat) : (akey vr st a b).2.1 = b := rfl
